@@ -48,6 +48,34 @@ def run(ck, facts, tier):
         # (the guard is stated on MIR paths: every path to the push passes the false edge, whichever obligation kind it carries -
         # no assumption on how the two kinds are told apart in the source)
 
+    R = "C09.OBLIGATION-ENTRY"
+    ck.rule(R, "K4 (who-may-write a field): the size check of the recursive solver lives in Fulfill::push_obligation, so that is the only "
+               "function that adds a *new* element to Fulfill.obligations (Vec::push / insert / extend); Fulfill::fulfill may only put back "
+               "(append) what it popped in the same round.  A goal handler that pushes onto the vector itself - e.g. the negative-goal arm "
+               "- creates obligations that are never truncated, and a program that grows types through them runs into the overflow panic")
+    n = 0
+    for key, fb_ in sorted(facts.bodies("chalk_recursive").items()):
+        if "{" in key or fb_.thir is None:
+            continue
+        th_ = facts.thir(key)
+        for c in calls(th_):
+            meth = str(c.get("fn", "")).split("::")[-1]
+            if meth not in ("push", "insert", "extend", "append", "extend_from_slice", "push_front", "push_back") or not c.get("args"):
+                continue
+            recv = c["args"][0]
+            if not any(x.get("k") == "field" and x.get("n") == "obligations" and "Fulfill" in str(x.get("adt", "")) for x in walk(recv)):
+                continue
+            n += 1
+            fn_ = key.split("::")[-1]
+            inst = "Fulfill.obligations:%s<-%s" % (meth, fn_)
+            if fn_ == "push_obligation" and meth == "push":
+                ck.ok(R, inst, "the size-checked entry")
+            elif fn_ == "fulfill" and meth == "append":
+                ck.ok(R, inst, "puts back the obligations popped in this round")
+            else:
+                ck.violation(R, inst, fb_.where(c.get("ln")), "obligations are added outside push_obligation: they bypass needs_truncation")
+    ck.floor(R, "writes-to-Fulfill.obligations", n, 2)
+
     R = "C09.SELECTED-NOT-FLOUNDERED"
     ck.rule(R, "K3 (justifies an engine assertion): on_subgoal_selected asserts that the selected subgoal's table has not floundered; a "
                "table can flounder *after* it was selected (pursue_answer marks it when an answer exceeds the size limit), so "
